@@ -348,4 +348,460 @@ example : isIncreasing [.num 10, .num 20, .num 40] = true ∧
     Spec.bbox [.num 10, .num 20, .num 40] (some (.num 25)) (some (.num 30)) = [] := by
   refine ⟨by decide, by decide, by decide⟩
 
+
+/-! ### helper lemmas for the all-steps theorems -/
+
+theorem label_getD_eq_getElem (L : List Label) (p : Nat) (hp : p < L.length) : L.getD p Label.none = L[p] := by
+  simp [List.getD_eq_getElem?_getD, List.getElem?_eq_getElem hp]
+
+/-- on an increasing axis the bounding box is an interval of positions -/
+theorem bbox_increasing (L : List Label) (hinc : isIncreasing L = true) (lo hi : Option Label) :
+    Spec.bbox L lo hi =
+      List.range' ((lo.map (searchLeft Label.lt L)).getD 0)
+        ((hi.map (searchRight Label.lt L)).getD L.length - (lo.map (searchLeft Label.lt L)).getD 0) := by
+  have hpw := increasing_pairwise_le L hinc
+  have hB : (hi.map (searchRight Label.lt L)).getD L.length ≤ L.length := by
+    cases hi with
+    | none => simp
+    | some w => exact searchRight_le_length _ _ _
+  rw [← filter_range_interval L.length _ _ hB]
+  unfold Spec.bbox
+  apply List.filter_congr
+  intro p hp
+  have hp' : p < L.length := List.mem_range.mp hp
+  rw [label_getD_eq_getElem L p hp']
+  congr 1
+  · cases lo with
+    | none => simp [Spec.leOpt]
+    | some v =>
+      simp only [Option.map_some, Option.getD_some, Spec.leOpt]
+      have := searchLeft_partition Label.le Label.le_trans Label.le_total L hpw v p hp'
+      rw [← label_lt_eq] at this
+      cases hle : Label.le v L[p]
+      · have := this.mpr hle
+        simp; omega
+      · have hnot : ¬ (p < searchLeft Label.lt L v) := fun h => by simp [this.mp h] at hle
+        simp; omega
+  · cases hi with
+    | none => simp [Spec.geOpt, hp']
+    | some w =>
+      simp only [Option.map_some, Option.getD_some, Spec.geOpt]
+      have := searchRight_partition Label.le Label.le_trans Label.le_total L hpw w p hp'
+      rw [← label_lt_eq] at this
+      cases hle : Label.le L[p] w
+      · have hnot : ¬ (p < searchRight Label.lt L w) := fun h => by simp [this.mp h] at hle
+        simp; omega
+      · have := this.mpr hle
+        simp; omega
+
+/-- on a decreasing axis too (positions counted from the far end of the reversed axis) -/
+theorem bbox_decreasing (L : List Label) (hdec : isDecreasing L = true) (lo hi : Option Label) :
+    Spec.bbox L lo hi =
+      List.range' ((hi.map fun v => L.length - searchRight Label.lt L.reverse v).getD 0)
+        ((lo.map fun w => L.length - searchLeft Label.lt L.reverse w).getD L.length
+          - (hi.map fun v => L.length - searchRight Label.lt L.reverse v).getD 0) := by
+  have hpw := decreasing_reverse_pairwise_le L hdec
+  have hR : L.reverse.length = L.length := List.length_reverse
+  have hsr : ∀ v, searchRight Label.lt L.reverse v ≤ L.length := fun v => hR ▸ searchRight_le_length _ _ _
+  have hsl : ∀ v, searchLeft Label.lt L.reverse v ≤ L.length := fun v => hR ▸ searchLeft_le_length _ _ _
+  have hB : (lo.map fun w => L.length - searchLeft Label.lt L.reverse w).getD L.length ≤ L.length := by
+    cases lo with
+    | none => simp
+    | some w => simp
+  rw [← filter_range_interval L.length _ _ hB]
+  unfold Spec.bbox
+  apply List.filter_congr
+  intro p hp
+  have hp' : p < L.length := List.mem_range.mp hp
+  rw [label_getD_eq_getElem L p hp', Bool.and_comm]
+  have hq : L.length - 1 - p < L.reverse.length := by rw [hR]; omega
+  have hrev : L.reverse[L.length - 1 - p] = L[p] := by
+    rw [List.getElem_reverse]; congr 1; omega
+  congr 1
+  · cases hi with
+    | none => simp [Spec.geOpt]
+    | some v =>
+      simp only [Option.map_some, Option.getD_some, Spec.geOpt]
+      have := searchRight_partition Label.le Label.le_trans Label.le_total L.reverse hpw v _ hq
+      rw [← label_lt_eq, hrev] at this
+      have hb := hsr v
+      cases hle : Label.le L[p] v
+      · have hnot : ¬ (L.length - 1 - p < searchRight Label.lt L.reverse v) := fun h => by simp [this.mp h] at hle
+        simp; omega
+      · have := this.mpr hle
+        simp; omega
+  · cases lo with
+    | none => simp [Spec.leOpt, hp']
+    | some w =>
+      simp only [Option.map_some, Option.getD_some, Spec.leOpt]
+      have := searchLeft_partition Label.le Label.le_trans Label.le_total L.reverse hpw w _ hq
+      rw [← label_lt_eq, hrev] at this
+      have hb := hsl w
+      cases hle : Label.le w L[p]
+      · have := this.mpr hle
+        simp; omega
+      · have hnot : ¬ (L.length - 1 - p < searchLeft Label.lt L.reverse w) := fun h => by simp [this.mp h] at hle
+        simp; omega
+
+
+
+theorem numBound_ok (b : Option Label) (h : ∀ v, b = some v → v.isNum = true) :
+    ((b.map Label.isNum).getD true == false) = false := by
+  cases b with
+  | none => rfl
+  | some v => simp [h v rfl]
+
+theorem step_getD_ne (step : Option Int) (hstep : step ≠ some 0) : (step.getD 1 == 0) = false := by
+  rw [beq_eq_false_iff_ne]
+  cases step with
+  | none => decide
+  | some k => simp at hstep ⊢; exact hstep
+
+theorem sliceSel_bbox_pos (L : List Label) (kind : Kind) (start stop : Option Label) (step : Option Int)
+    (hk : kind.isNumeric = true) (hmono : isMonotonicEq L = true)
+    (hs : ∀ v, start = some v → v.isNum = true) (he : ∀ v, stop = some v → v.isNum = true)
+    (hpos : 0 < step.getD 1) :
+    Spec.sliceSel L kind start stop step = some (Spec.everyKth (step.getD 1).natAbs
+      (if headLeLast L then Spec.bbox L start stop else Spec.bbox L stop start)) := by
+  have h0 : (step.getD 1 == 0) = false := by rw [beq_eq_false_iff_ne]; omega
+  unfold Spec.sliceSel Spec.isBBoxAxis Spec.isIncreasingAxis
+  simp only [h0, hk, hmono, numBound_ok start hs, numBound_ok stop he, Bool.false_eq_true, if_false,
+    Bool.and_self, if_true, Bool.or_self, gt_iff_lt, hpos]
+  cases headLeLast L <;> rfl
+
+theorem sliceSel_bbox_neg (L : List Label) (kind : Kind) (start stop : Option Label) (step : Option Int)
+    (hk : kind.isNumeric = true) (hmono : isMonotonicEq L = true)
+    (hs : ∀ v, start = some v → v.isNum = true) (he : ∀ v, stop = some v → v.isNum = true)
+    (hneg : step.getD 1 < 0) :
+    Spec.sliceSel L kind start stop step = some (Spec.everyKth (step.getD 1).natAbs
+      (if headLeLast L then Spec.bbox L stop start else Spec.bbox L start stop).reverse) := by
+  have h0 : (step.getD 1 == 0) = false := by rw [beq_eq_false_iff_ne]; omega
+  have h1 : ¬ (0 < step.getD 1) := by omega
+  unfold Spec.sliceSel Spec.isBBoxAxis Spec.isIncreasingAxis
+  simp only [h0, hk, hmono, numBound_ok start hs, numBound_ok stop he, Bool.false_eq_true, if_false,
+    Bool.and_self, if_true, Bool.or_self, gt_iff_lt, h1]
+  cases headLeLast L <;> rfl
+
+
+theorem locateSlice_inc_pos (L : List Label) (kind : Kind) (start stop : Option Label) (step : Option Int)
+    (hk : kind.isNumeric = true) (hinc : isIncreasing L = true)
+    (hs : ∀ v, start = some v → v.isNum = true) (he : ∀ v, stop = some v → v.isNum = true)
+    (hpos : 0 < step.getD 1) :
+    (locateSlice L kind start stop step).bind (fun ab => slicePositions ab.1 ab.2 step L.length)
+      = .ok (Spec.everyKth (step.getD 1).natAbs (Spec.bbox L start stop)) := by
+  have hmono := increasing_isMonotonicEq L hinc
+  have hsorted := increasing_head_le_last L hinc
+  have hsp : stepPos step = true := by rw [stepPos_eq]; simpa using hpos
+  unfold locateSlice
+  simp only [hk, Bool.not_true, Bool.false_eq_true, if_false, hmono, hsorted, Bool.and_self,
+    numBound_ok start hs, numBound_ok stop he, hsp, Bool.false_and]
+  simp only [Except.bind, searchSide, if_true]
+  rw [bbox_increasing L hinc]
+  apply slicePositions_step_pos _ _ _ _ _ _ hpos
+  · cases start with
+    | none => simp
+    | some v => exact searchLeft_le_length _ _ _
+  · cases stop with
+    | none => simp
+    | some v => exact searchRight_le_length _ _ _
+  · cases start with
+    | none => exact Or.inl ⟨rfl, rfl⟩
+    | some v => exact Or.inr rfl
+  · cases stop with
+    | none => exact Or.inl ⟨rfl, rfl⟩
+    | some v => exact Or.inr rfl
+
+theorem locateSlice_inc_neg (L : List Label) (kind : Kind) (start stop : Option Label) (step : Option Int)
+    (hk : kind.isNumeric = true) (hinc : isIncreasing L = true)
+    (hs : ∀ v, start = some v → v.isNum = true) (he : ∀ v, stop = some v → v.isNum = true)
+    (hneg : step.getD 1 < 0) :
+    (locateSlice L kind start stop step).bind (fun ab => slicePositions ab.1 ab.2 step L.length)
+      = .ok (Spec.everyKth (step.getD 1).natAbs (Spec.bbox L stop start).reverse) := by
+  have hmono := increasing_isMonotonicEq L hinc
+  have hsorted := increasing_head_le_last L hinc
+  have hsp : stepPos step = false := by rw [stepPos_eq]; simp; omega
+  have hstep : step ≠ some 0 := by intro h; rw [h] at hneg; simp at hneg
+  unfold locateSlice
+  simp only [hk, Bool.not_true, Bool.false_eq_true, if_false, hmono, hsorted, Bool.and_self,
+    numBound_ok start hs, numBound_ok stop he, hsp, Bool.not_false, Bool.true_and]
+  simp only [searchSide]
+  rw [bbox_increasing L hinc]
+  exact slice_assemble_neg start stop step L.length
+    (fun v => ((searchLeft Label.lt L v : Nat) : Int)) (fun v => ((searchRight Label.lt L v : Nat) : Int))
+    (searchLeft Label.lt L) (searchRight Label.lt L) (fun _ => rfl) (fun _ => rfl)
+    (fun v => searchLeft_le_length _ _ _) (fun v => searchRight_le_length _ _ _) hneg
+
+theorem locateSlice_dec_pos (L : List Label) (kind : Kind) (start stop : Option Label) (step : Option Int)
+    (hk : kind.isNumeric = true) (hdec : isDecreasing L = true) (hlen : 2 ≤ L.length)
+    (hs : ∀ v, start = some v → v.isNum = true) (he : ∀ v, stop = some v → v.isNum = true)
+    (hpos : 0 < step.getD 1) :
+    (locateSlice L kind start stop step).bind (fun ab => slicePositions ab.1 ab.2 step L.length)
+      = .ok (Spec.everyKth (step.getD 1).natAbs (Spec.bbox L stop start)) := by
+  have hmono := decreasing_isMonotonicEq L hdec
+  have hsorted := decreasing_headLeLast L hdec hlen
+  have hsp : stepPos step = true := by rw [stepPos_eq]; simpa using hpos
+  have hR : L.reverse.length = L.length := List.length_reverse
+  have hsr : ∀ v, searchRight Label.lt L.reverse v ≤ L.length := fun v => hR ▸ searchRight_le_length _ _ _
+  have hsl : ∀ v, searchLeft Label.lt L.reverse v ≤ L.length := fun v => hR ▸ searchLeft_le_length _ _ _
+  unfold locateSlice
+  simp only [hk, Bool.not_true, Bool.false_eq_true, if_false, hmono, hsorted, Bool.and_false,
+    numBound_ok start hs, numBound_ok stop he, hsp, Bool.false_and, Bool.not_false]
+  simp only [Except.bind, searchSide, if_true]
+  rw [bbox_decreasing L hdec]
+  exact slice_assemble_pos start stop step L.length
+    (fun v => (L.length : Int) - ((searchRight Label.lt L.reverse v : Nat) : Int))
+    (fun v => (L.length : Int) - ((searchLeft Label.lt L.reverse v : Nat) : Int))
+    (fun v => L.length - searchRight Label.lt L.reverse v) (fun v => L.length - searchLeft Label.lt L.reverse v)
+    (fun v => by have := hsr v; omega) (fun v => by have := hsl v; omega)
+    (fun v => Nat.sub_le _ _) (fun v => Nat.sub_le _ _) hpos
+
+theorem locateSlice_dec_neg (L : List Label) (kind : Kind) (start stop : Option Label) (step : Option Int)
+    (hk : kind.isNumeric = true) (hdec : isDecreasing L = true) (hlen : 2 ≤ L.length)
+    (hs : ∀ v, start = some v → v.isNum = true) (he : ∀ v, stop = some v → v.isNum = true)
+    (hneg : step.getD 1 < 0) :
+    (locateSlice L kind start stop step).bind (fun ab => slicePositions ab.1 ab.2 step L.length)
+      = .ok (Spec.everyKth (step.getD 1).natAbs (Spec.bbox L start stop).reverse) := by
+  have hmono := decreasing_isMonotonicEq L hdec
+  have hsorted := decreasing_headLeLast L hdec hlen
+  have hsp : stepPos step = false := by rw [stepPos_eq]; simp; omega
+  have hR : L.reverse.length = L.length := List.length_reverse
+  have hsr : ∀ v, searchRight Label.lt L.reverse v ≤ L.length := fun v => hR ▸ searchRight_le_length _ _ _
+  have hsl : ∀ v, searchLeft Label.lt L.reverse v ≤ L.length := fun v => hR ▸ searchLeft_le_length _ _ _
+  unfold locateSlice
+  simp only [hk, Bool.not_true, Bool.false_eq_true, if_false, hmono, hsorted, Bool.and_false,
+    numBound_ok start hs, numBound_ok stop he, hsp, Bool.not_false, Bool.true_and]
+  simp only [searchSide, if_true]
+  rw [bbox_decreasing L hdec]
+  exact slice_assemble_neg start stop step L.length
+    (fun v => (L.length : Int) - ((searchRight Label.lt L.reverse v : Nat) : Int))
+    (fun v => (L.length : Int) - ((searchLeft Label.lt L.reverse v : Nat) : Int))
+    (fun v => L.length - searchRight Label.lt L.reverse v) (fun v => L.length - searchLeft Label.lt L.reverse v)
+    (fun v => by have := hsr v; omega) (fun v => by have := hsl v; omega)
+    (fun v => Nat.sub_le _ _) (fun v => Nat.sub_le _ _) hneg
+
+
+theorem posRange_interval (n : Nat) (i j : Option Nat) (hj : ∀ b, j = some b → b < n) :
+    Spec.posRange n i j = List.range' (i.getD 0) ((j.map (· + 1)).getD n - i.getD 0) := by
+  have hB : (j.map (· + 1)).getD n ≤ n := by
+    cases j with
+    | none => simp
+    | some b => have := hj b rfl; simp; omega
+  rw [← filter_range_interval n _ _ hB]
+  unfold Spec.posRange
+  apply List.filter_congr
+  intro p hp
+  have hp' : p < n := List.mem_range.mp hp
+  congr 1
+  · cases i <;> simp
+  · cases j with
+    | none => simp [hp']
+    | some b => simp; omega
+
+theorem locateSlice_eq_strict (L : List Label) (kind : Kind) (start stop : Option Label) (step : Option Int)
+    (hstrict : (kind.isNumeric && isMonotonicEq L) = false) :
+    locateSlice L kind start stop step = locateSliceStrict L start stop step := by
+  unfold locateSlice
+  cases hk : kind.isNumeric
+  · simp
+  · rw [hk] at hstrict
+    simp at hstrict
+    simp [hstrict]
+
+theorem locateSliceStrict_pos (L : List Label) (start stop : Option Label) (step : Option Int)
+    (hs : ∀ v, start = some v → v ∈ L) (he : ∀ v, stop = some v → v ∈ L) (hsp : stepPos step = true) :
+    locateSliceStrict L start stop step =
+      .ok (start.map (fun v => ((firstIdx L v : Nat) : Int)), stop.map (fun v => ((firstIdx L v : Nat) : Int) + 1)) := by
+  unfold locateSliceStrict
+  cases start with
+  | none =>
+    cases stop with
+    | none => rfl
+    | some w => simp [locateOne_none, he w rfl, hsp, bind, Except.bind, pure, Except.pure]
+  | some v =>
+    cases stop with
+    | none => simp [locateOne_none, hs v rfl, bind, Except.bind, pure, Except.pure]
+    | some w => simp [locateOne_none, hs v rfl, he w rfl, hsp, bind, Except.bind, pure, Except.pure]
+
+theorem locateSliceStrict_neg (L : List Label) (start stop : Option Label) (step : Option Int)
+    (hs : ∀ v, start = some v → v ∈ L) (he : ∀ v, stop = some v → v ∈ L) (hsp : stepPos step = false) :
+    locateSliceStrict L start stop step =
+      .ok (start.map (fun v => ((firstIdx L v : Nat) : Int)),
+        stop.bind (fun v => if (((firstIdx L v : Nat) : Int) == 0) = true then none
+          else some (((firstIdx L v : Nat) : Int) - 1))) := by
+  unfold locateSliceStrict
+  cases start with
+  | none =>
+    cases stop with
+    | none => rfl
+    | some w =>
+      simp only [locateOne_none, he w rfl, hsp, bind, Except.bind, pure, Except.pure, if_true,
+        Bool.false_eq_true, if_false, Option.bind_some]
+      split <;> rfl
+  | some v =>
+    cases stop with
+    | none => simp [locateOne_none, hs v rfl, bind, Except.bind, pure, Except.pure]
+    | some w =>
+      simp only [locateOne_none, hs v rfl, he w rfl, hsp, bind, Except.bind, pure, Except.pure, if_true,
+        Bool.false_eq_true, if_false, Option.bind_some, Option.map_some]
+      split <;> rfl
+
+
+theorem sliceSel_strict_eq (L : List Label) (kind : Kind) (start stop : Option Label) (step : Option Int)
+    (hstrict : (kind.isNumeric && isMonotonicEq L) = false)
+    (hs : ∀ v, start = some v → v ∈ L) (he : ∀ v, stop = some v → v ∈ L)
+    (hstep0 : (step.getD 1 == 0) = false) :
+    Spec.sliceSel L kind start stop step = some (Spec.everyKth (step.getD 1).natAbs
+      (if step.getD 1 > 0 then Spec.posRange L.length (start.map (firstIdx L)) (stop.map (firstIdx L))
+       else (Spec.posRange L.length (stop.map (firstIdx L)) (start.map (firstIdx L))).reverse)) := by
+  unfold Spec.sliceSel Spec.isBBoxAxis
+  simp only [hstep0, hstrict, Bool.false_eq_true, if_false]
+  cases start with
+  | none =>
+    cases stop with
+    | none => simp
+    | some w => simp [he w rfl]
+  | some v =>
+    cases stop with
+    | none => simp [hs v rfl]
+    | some w => simp [hs v rfl, he w rfl]
+
+/-! ### all steps (round 2): the model's `locate_slice` followed by Python's `slice.indices` equals the
+definitional spec `Spec.sliceSel` - bounding box in axis order, or in reverse order for a negative step,
+keeping every |step|-th element - on every monotonic numeric axis -/
+
+/-- FULL STATEMENT of C02's first sentence: for every strictly monotonic numeric axis (any length, both
+directions), any numeric bounds (labels or not, or open) and any non-zero step, the positions selected
+are `Spec.sliceSel` -/
+theorem locateSlice_sliceSel_monotonic (L : List Label) (kind : Kind) (start stop : Option Label) (step : Option Int)
+    (hk : kind.isNumeric = true) (hmono : isIncreasing L = true ∨ isDecreasing L = true)
+    (hs : ∀ v, start = some v → v.isNum = true) (he : ∀ v, stop = some v → v.isNum = true)
+    (hstep : step ≠ some 0) :
+    ∃ ps, Spec.sliceSel L kind start stop step = some ps ∧
+      (locateSlice L kind start stop step).bind (fun ab => slicePositions ab.1 ab.2 step L.length) = .ok ps := by
+  have hstep0 := step_getD_ne step hstep
+  have hdir : isIncreasing L = true ∨ (isDecreasing L = true ∧ 2 ≤ L.length) := by
+    rcases hmono with h | h
+    · exact Or.inl h
+    · by_cases hl : 2 ≤ L.length
+      · exact Or.inr ⟨h, hl⟩
+      · left
+        match L, hl with
+        | [], _ => rfl
+        | [_], _ => rfl
+        | _ :: _ :: _, hl => simp at hl
+  by_cases hpos : 0 < step.getD 1
+  · rcases hdir with hinc | ⟨hdec, hlen⟩
+    · refine ⟨_, ?_, locateSlice_inc_pos L kind start stop step hk hinc hs he hpos⟩
+      rw [sliceSel_bbox_pos L kind start stop step hk (increasing_isMonotonicEq L hinc) hs he hpos,
+        increasing_head_le_last L hinc]
+      rfl
+    · refine ⟨_, ?_, locateSlice_dec_pos L kind start stop step hk hdec hlen hs he hpos⟩
+      rw [sliceSel_bbox_pos L kind start stop step hk (decreasing_isMonotonicEq L hdec) hs he hpos,
+        decreasing_headLeLast L hdec hlen]
+      rfl
+  · have hneg : step.getD 1 < 0 := by
+      have := beq_eq_false_iff_ne.mp hstep0
+      omega
+    rcases hdir with hinc | ⟨hdec, hlen⟩
+    · refine ⟨_, ?_, locateSlice_inc_neg L kind start stop step hk hinc hs he hneg⟩
+      rw [sliceSel_bbox_neg L kind start stop step hk (increasing_isMonotonicEq L hinc) hs he hneg,
+        increasing_head_le_last L hinc]
+      rfl
+    · refine ⟨_, ?_, locateSlice_dec_neg L kind start stop step hk hdec hlen hs he hneg⟩
+      rw [sliceSel_bbox_neg L kind start stop step hk (decreasing_isMonotonicEq L hdec) hs he hneg,
+        decreasing_headLeLast L hdec hlen]
+      rfl
+
+/-- ... and on non-numeric or non-monotonic axes with both bounds existing labels (or open): from the first
+to the second, inclusive, every |step|-th element, reversed for a negative step -/
+theorem locateSlice_sliceSel_strict (L : List Label) (kind : Kind) (start stop : Option Label) (step : Option Int)
+    (hstrict : (kind.isNumeric && isMonotonicEq L) = false) (hn : L.Nodup)
+    (hs : ∀ v, start = some v → v ∈ L) (he : ∀ v, stop = some v → v ∈ L)
+    (hstep : step ≠ some 0) :
+    ∃ ps, Spec.sliceSel L kind start stop step = some ps ∧
+      (locateSlice L kind start stop step).bind (fun ab => slicePositions ab.1 ab.2 step L.length) = .ok ps := by
+  have _ := hn  -- not needed: `firstIdx` is the first occurrence in model and spec alike, duplicates or not
+  have hstep0 := step_getD_ne step hstep
+  refine ⟨_, sliceSel_strict_eq L kind start stop step hstrict hs he hstep0, ?_⟩
+  rw [locateSlice_eq_strict L kind start stop step hstrict]
+  have hfi : ∀ v, v ∈ L → firstIdx L v < L.length := fun v hv => firstIdx_lt_iff.mpr hv
+  by_cases hpos : 0 < step.getD 1
+  · have hsp : stepPos step = true := by rw [stepPos_eq]; simpa using hpos
+    rw [locateSliceStrict_pos L start stop step hs he hsp, if_pos hpos]
+    simp only [Except.bind]
+    rw [posRange_interval]
+    · apply slicePositions_step_pos _ _ _ _ _ _ hpos
+      · cases start with
+        | none => simp
+        | some v => have := hfi v (hs v rfl); simp; omega
+      · cases stop with
+        | none => simp
+        | some w => have := hfi w (he w rfl); simp; omega
+      · cases start with
+        | none => exact Or.inl ⟨rfl, rfl⟩
+        | some v => exact Or.inr rfl
+      · cases stop with
+        | none => exact Or.inl ⟨rfl, rfl⟩
+        | some w => exact Or.inr (by simp)
+    · intro b hb
+      cases stop with
+      | none => simp at hb
+      | some w => simp at hb; subst hb; exact hfi w (he w rfl)
+  · have hneg : step.getD 1 < 0 := by
+      have := beq_eq_false_iff_ne.mp hstep0
+      omega
+    have hsp : stepPos step = false := by rw [stepPos_eq]; simp; omega
+    rw [locateSliceStrict_neg L start stop step hs he hsp, if_neg hpos]
+    simp only [Except.bind]
+    rw [posRange_interval]
+    · apply slicePositions_step_neg _ _ _ _ _ _ hneg
+      · cases stop with
+        | none => simp
+        | some w => have := hfi w (he w rfl); simp; omega
+      · cases start with
+        | none => simp
+        | some v => have := hfi v (hs v rfl); simp; omega
+      · cases start with
+        | none => exact Or.inl ⟨rfl, rfl⟩
+        | some v => exact Or.inr ⟨by simp, by simp⟩
+      · cases stop with
+        | none => exact Or.inl ⟨rfl, rfl⟩
+        | some w =>
+          by_cases h2 : (((firstIdx L w : Nat) : Int) == 0) = true
+          · left
+            simp at h2
+            simp [h2]
+          · right
+            simp at h2
+            simp [h2]
+            omega
+    · intro b hb
+      cases start with
+      | none => simp at hb
+      | some v => simp at hb; subst hb; exact hfi v (hs v rfl)
+
+/-- a bound that is not an existing label is refused on such axes -/
+theorem locateSlice_sliceSel_strict_absent (L : List Label) (kind : Kind) (start stop : Option Label) (step : Option Int)
+    (hstrict : (kind.isNumeric && isMonotonicEq L) = false)
+    (habs : (∃ v, start = some v ∧ v ∉ L) ∨ (∃ v, stop = some v ∧ v ∉ L)) (hstep : step ≠ some 0) :
+    Spec.sliceSel L kind start stop step = none ∧
+      ∃ e, (locateSlice L kind start stop step).bind (fun ab => slicePositions ab.1 ab.2 step L.length) = .error e := by
+  have hstep0 := step_getD_ne step hstep
+  constructor
+  · unfold Spec.sliceSel Spec.isBBoxAxis
+    simp only [hstep0, hstrict, Bool.false_eq_true, if_false]
+    rcases habs with ⟨v, rfl, hv⟩ | ⟨w, rfl, hw⟩
+    · simp [hv]
+    · cases start with
+      | none => simp [hw]
+      | some v => by_cases hv : v ∈ L <;> simp [hv, hw]
+  · rw [locateSlice_eq_strict L kind start stop step hstrict]
+    refine ⟨.index, ?_⟩
+    unfold locateSliceStrict
+    rcases habs with ⟨v, rfl, hv⟩ | ⟨w, rfl, hw⟩
+    · simp [locateOne_none, hv, bind, Except.bind]
+    · cases start with
+      | none => simp [locateOne_none, hw, bind, Except.bind, pure, Except.pure]
+      | some v => by_cases hv : v ∈ L <;> simp [locateOne_none, hv, hw, bind, Except.bind, pure, Except.pure]
+
 end DimModel
